@@ -172,12 +172,25 @@ FlankOK(q) ==
 
 -----------------------------------------------------------------------------
 (* blocks: one record shape *)
-B0 == [k |-> "", ind |-> 0, c |-> "", n |-> 0, p |-> 0, s |-> "", tag |-> "", inl |-> <<>>,
+B0 == [k |-> "", ind |-> 0, c |-> "", n |-> 0, p |-> 0, s |-> "", cls |-> <<>>, inl |-> <<>>,
        body |-> <<>>, loose |-> TRUE, items |-> <<>>, gap |-> 0]
 Para(ind, inl)               == [B0 EXCEPT !.k = "para", !.ind = ind, !.inl = inl]
 Atx(ind, lvl, closer, inl)   == [B0 EXCEPT !.k = "atx", !.ind = ind, !.n = lvl, !.s = closer, !.inl = inl]
-Fence(ind, ch, n, info, tag, body) == [B0 EXCEPT !.k = "fence", !.ind = ind, !.c = ch, !.n = n, !.s = info, !.tag = tag, !.body = body]
-ICode(body)                  == [B0 EXCEPT !.k = "icode", !.body = body]
+\* a line of a code block: sp spaces, a run of rn fence characters ch (or none), rest; s is the line,
+\* h its HTML-escaped form.  CL lines need no escaping by construction; RL gives both spellings.
+CL(sp, ch, rn, rest) == [sp |-> sp, ch |-> ch, rn |-> rn, rest |-> rest,
+                         s |-> Spaces(sp) \o Rep(ch, rn) \o rest, h |-> Spaces(sp) \o Rep(ch, rn) \o rest]
+PL(s)     == CL(0, "", 0, s)
+RL(s, h)  == [sp |-> 0, ch |-> "", rn |-> 0, rest |-> s, s |-> s, h |-> h]
+LineStrs(cls) == [i \in DOMAIN cls |-> cls[i].s]
+Fence(ind, ch, n, info, cls) == [B0 EXCEPT !.k = "fence", !.ind = ind, !.c = ch, !.n = n, !.s = info, !.cls = cls, !.body = LineStrs(cls)]
+ICode(cls)                   == [B0 EXCEPT !.k = "icode", !.cls = cls, !.body = LineStrs(cls)]
+\* CommonMark, fenced code blocks: the closing fence is a line of up to three spaces of indentation, at
+\* least as many fence characters of the same kind as the opening fence, and nothing but spaces after.
+\* shift = the spaces the written line gets in addition to l.sp (the indentation of the fence itself).
+\* (This is also the rule the FORMATTER has to respect when it chooses a fence for the lines: its fence
+\* must be longer than every such run; C36 sees a failure as changed HTML / lost idempotence.)
+ClosesFence(l, ch, n, shift) == l.ch = ch /\ l.rest = "" /\ l.rn >= n /\ l.sp + shift <= 3
 Them(ind, ch, style)         == [B0 EXCEPT !.k = "them", !.ind = ind, !.c = ch, !.s = style]
 Html(ind, lines)             == [B0 EXCEPT !.k = "html", !.ind = ind, !.body = lines]
 Quote(ind, marker, kids)     == [B0 EXCEPT !.k = "quote", !.ind = ind, !.s = marker, !.items = <<kids>>]
@@ -321,7 +334,8 @@ OKChild(ctx, first, prev, b) ==
         /\ b.k # "icode"
         /\ (b.k = prev.k => b.c # prev.c)       \* same marker: one list
   /\ (prev.k = "icode" => b.k # "icode")        \* one code block
-  /\ (b.k = "fence" => b.tag # b.c)             \* the body does not contain its own fence
+  /\ (b.k = "fence" =>                          \* no line of the body closes the fence
+        \A i \in DOMAIN b.cls : ~ClosesFence(b.cls[i], b.c, b.n, b.ind - (IF ctx.k = "quote" /\ ctx.s = ">" THEN 1 ELSE 0)))
 
 RECURSIVE WFBlocks(_, _)
 WFBlock(ctx, first, prev, b) ==
